@@ -170,8 +170,17 @@ def _exec(sched, lname, kind, unit):
         # the three values of mpf: rgbw_white_behavior (the attribute is only ever assigned from that setting at load)
         light._rbgw_style = ('min_rgb', 'duck_rgb', 'white_only')[(len(sched) + {50: 0, 100: 1, 200: 2}.get(unit, 0)) % 3]
 
+    # the machine-wide brightness setting (machine variable 'brightness'): 1.0 or 0.8, by schedule
+    factor = 0.8 if (len(sched) + (unit // 50)) % 3 == 0 else 1.0
+    h.machine.variables.set_machine_var('brightness', factor)
+    for _ in range(3):
+        h.advance_time_and_run(0)
+
     def corrected():
-        col = light.color_correct(light.gamma_correct(light.get_color()))
+        from mpf.core.rgb_color import RGBColor
+        lg = light.get_color()
+        # brightness correction computed here, not by the code under test: every component scaled by the factor
+        col = light.color_correct(RGBColor([int(x * factor) for x in (lg.red, lg.green, lg.blue)]) if factor != 1.0 else lg)
         style = light._rbgw_style if 'white' in chans and len(chans) > 1 else None
         lo = min(col.red, col.green, col.blue)
         grey = col.red == col.green == col.blue
@@ -242,6 +251,7 @@ def _exec(sched, lname, kind, unit):
         for c in chans:
             light.hw_drivers[c] = saved[c]
         light._rbgw_style = saved_style
+        h.machine.variables.set_machine_var('brightness', 1.0)
         light.clear_stack()
         light._last_fade_target = None
         h.advance_time_and_run(0.1)
